@@ -1,8 +1,8 @@
 (* C11 -- the sampling rate follows the exporter's latest announcement.
    Statements only; proofs in Proofs/PipeP.v. *)
 From Coq Require Import List NArith Bool.
-From GF Require Import Base.Res Base.Bytes Model.Msg Model.NF Model.NFv5 Model.Packet Model.ProdNF Model.Pipe
-     Proofs.PipeP.
+From GF Require Import Base.Res Base.Bytes Base.Gen Model.Msg Model.NF Model.NFv5 Model.Packet Model.ProdNF Model.Pipe
+     Spec.RefRate Spec.GenPipe Proofs.PipeP Proofs.RateP.
 Import ListNotations.
 Open Scope N_scope.
 
@@ -56,3 +56,54 @@ Theorem c11_step : forall cfg st e tr d st' o ms ver d0 p tnf s1 ms0 ss',
                if found && skey_eqb (addr_id (eAddr e), pVer p, nf_dom (pVer p) (pHdr p)) k then rate else rate_of (psS st) k).
 Proof. exact nf_step_rate. Qed.
 Print Assumptions c11_step.
+
+(* ---- over histories --------------------------------------------------------------------------
+   THE property.  Spec/RefRate.v: [anns cfg init h] is the chronological list of announcements
+   ((exporter address, version, domain), rate) the datagrams of a history made, [latest l k] the last
+   one under key k, 0 when there is none, [dgram_key e d] the key read from the datagram's own bytes
+   (source address without the port, version word, source-id / observation-domain word).
+   For EVERY history h of datagrams from any exporters and EVERY further v9 / IPFIX datagram d: each
+   message the pipe emits for d carries [latest] of the announcements of h followed by d's own. *)
+Theorem c11_history : forall cfg h e tr d st' o ms k,
+  dgram_key e d = Some k ->
+  nf_step cfg (nf_after cfg init_pstate h) e tr d = Ok (st', o, ms) ->
+  Forall (fun m => mgetI m cSamplingRate = latest (anns cfg init_pstate (h ++ [(e, tr, d)])) k) ms.
+Proof. exact rate_history. Qed.
+Print Assumptions c11_history.
+
+(* what [latest] means: the last announcement under the key wins, announcements under any other key
+   (another exporter address, version or domain) can be deleted from the past without effect, and
+   nothing announced means 0 *)
+Theorem c11_latest_wins : forall l a, latest (l ++ [a]) (fst a) = snd a.
+Proof. exact latest_last. Qed.
+Print Assumptions c11_latest_wins.
+Theorem c11_other_keys_irrelevant : forall l1 l2 a k,
+  skey_eqb (fst a) k = false -> latest (l1 ++ a :: l2) k = latest (l1 ++ l2) k.
+Proof. exact latest_other. Qed.
+Print Assumptions c11_other_keys_irrelevant.
+Theorem c11_nothing_announced : forall k, latest [] k = 0.
+Proof. exact latest_none. Qed.
+Print Assumptions c11_nothing_announced.
+(* the source port of the exporter is not part of the key *)
+Theorem c11_port_irrelevant : forall a p1 p2 d,
+  dgram_key {| eAddr := a; ePort := p1 |} d = dgram_key {| eAddr := a; ePort := p2 |} d.
+Proof. exact dgram_key_port. Qed.
+Print Assumptions c11_port_irrelevant.
+
+(* the sampling store after any history holds, under every key, the latest announcement *)
+Theorem c11_store_is_latest : forall cfg h k,
+  rate_of (psS (nf_after cfg init_pstate h)) k = latest (anns cfg init_pstate h) k.
+Proof. intros cfg h k. exact (store_is_latest cfg h init_pstate k). Qed.
+Print Assumptions c11_store_is_latest.
+
+(* the EXPECTED outputs of the check (Drivers/D11.v: the model pipe's messages with the rate column
+   overwritten by the reference [latest]) are, for every history, the model pipe's own output *)
+Theorem c11_reference_run : forall cfg h,
+  rate_run cfg init_pstate [] h = nf_run cfg init_pstate h.
+Proof. intros cfg h. apply rate_run_is_pipe_run. intros k. reflexivity. Qed.
+Print Assumptions c11_reference_run.
+
+(* non-vacuity: the second generated history of seed 1 makes five announcements under four keys *)
+Example c11_history_nonvacuous :
+  length (anns empty_prodcfg init_pstate (gcase gen_pipe_case 1 1)) = 5%nat.
+Proof. vm_compute. reflexivity. Qed.
